@@ -98,7 +98,11 @@ def batch_case(draw):
     # "Its leaves are scalars or arrays whose dimension is one less than `tree`": per leaf, the element may also be
     # a scalar (0-d array or Python number) that fills the whole row
     scalar = [draw(st.sampled_from(["full", "full", "full", "scalar0d", "pyscalar"])) for _ in lv]
-    return {"structure": s, "trees": trees, "element": elem, "index": i, "elem_kind": scalar,
+    # some trees of the list may be one and the same Python object (a state kept from earlier, "there and back"
+    # lists): (dst, src) pairs, the pair (last, first) is favoured
+    alias = draw(st.lists(st.one_of(st.just((b - 1, 0)), st.tuples(st.integers(0, b - 1), st.integers(0, b - 1))),
+                          max_size=2)) if b >= 2 else []
+    return {"structure": s, "trees": trees, "element": elem, "index": i, "elem_kind": scalar, "alias": [list(p) for p in alias],
             "index_kind": draw(st.sampled_from(["int", "np", "jnp"]))}
 
 
@@ -171,6 +175,8 @@ def eval_batch(case):
     s, b, i = case["structure"], len(case["trees"]), case["index"]
     idx = {"int": i, "np": np.int32(i), "jnp": jnp.asarray(i, jnp.int32)}[case["index_kind"]]
     ts = [build(s, iter(v), mk_jnp) for v in case["trees"]]
+    for dst, src in case.get("alias") or []:
+        ts[dst % b] = ts[src % b]        # the same tree object (same leaf objects) at two positions of the list
     kinds = iter(case.get("elem_kind") or [])
 
     def mk_elem(leaf, vals):
